@@ -429,6 +429,10 @@ def family_fsfault(run):
     before, after, escaped = attempt(rec)
     log = list(rec.log)
     opened = [name for op, name, _ in log if op == "open"]
+    if not opened and after == before:
+        # nothing was written by any means in the fault-free run (e.g. a library that skips an unchanged save):
+        # there is no save sequence to inject faults into; whether skipping is acceptable is C05's subject
+        return 0, ["family:fsfault", "fault-free-run-wrote-nothing"]
     if run.target not in opened:
         raise HarnessError(f"the recording filesystem saw no open-for-writing of the output file (calls: {log}); the wrapper does not observe how the library writes")
     if run.bak and run.bak not in opened:
